@@ -175,8 +175,15 @@ def _decoder(ctx, rid, f):
     fval = anchor_fn(ctx, rid, f, "module::Module::value", ["module::Module"], "bool")
     if not (fty and fval):
         return None
-    F = fold.Folder(f)
+    F = peval.PEval(f, max_steps=100000)
     table = {}
+    probe_t = F.run(fty.path, [("adt", "module::Module", 0, "Module", (("int", "u8", 0),))])
+    probe_v = F.run(fval.path, [("adt", "module::Module", 0, "Module", (("int", "u8", 0),))])
+    if probe_t.kind != "ret" or probe_v.kind != "ret":
+        bad = probe_t if probe_t.kind != "ret" else probe_v
+        ctx.abstain(rid, "the module accessors module_type()/value() do not fold (%s: %s): module bytes cannot be decoded" % (bad.kind, bad.why),
+                    where_fn(fty))
+        return None
 
     def dec(b):
         if b not in table:
@@ -215,6 +222,25 @@ class _Groups:
                 reason, expected=e["expected"], found=e["found"])
 
 
+class _Und:
+    """abstentions grouped by reason: one UNDECIDED line per reason, every instance counted"""
+
+    def __init__(self):
+        self.r = {}
+        self.count = 0
+
+    def add(self, reason, inst):
+        self.r.setdefault(str(reason)[:200], []).append(inst)
+        self.count += 1
+
+    def emit(self, ctx, rid, what, where):
+        for why, insts in sorted(self.r.items()):
+            ctx.abstain(rid, "%s not foldable for %s%s: %s" % (what, ", ".join(insts[:4]), " ..." if len(insts) > 4 else "", why), where)
+            r = ctx.rules[rid]
+            r["obligations"] += len(insts) - 1
+            r["undecided"] += len(insts) - 1
+
+
 def _cell(g, r, c):
     return g["cells"].get(r * g["size"] + c, g["default"])
 
@@ -235,6 +261,7 @@ def c03_r3(ctx, f, rid="C03.R3", labels_only=False):
     res = geometry(ctx, f, {"blank"} if ctx.tier != "thorough" else {"blank"})
     helpers = set()
     groups = _Groups()
+    und = _Und()
     for job in res:
         v = job["v"]
         name = "V%02d" % v
@@ -245,7 +272,7 @@ def c03_r3(ctx, f, rid="C03.R3", labels_only=False):
                 ctx.fail(rid, "default::create_matrix/%s/diverges" % name, where_fn(fn), fn.path, name,
                          "building the blank symbol panics for this version: %s" % st[1])
             else:
-                ctx.abstain(rid, "blank-symbol construction is not foldable for %s: %s" % (name, st[1]), where_fn(fn))
+                und.add(st[1], name)
             continue
         helpers |= {c for c in job["blank_calls"] if c.startswith("default::")}
         g = job["blank"]
@@ -295,8 +322,12 @@ def c03_r3(ctx, f, rid="C03.R3", labels_only=False):
                 "module(s) of this region carry another label or value than ISO/IEC 18004 prescribes (first offending module shown)")
     for h in sorted(helpers):
         ctx.analysed(f.fn(h))
-    ctx.floor(rid, "versions evaluated", sum(1 for j in res if j["blank_status"][0] == "ret"), 40)
-    ctx.floor(rid, "drawing helpers reached from create_matrix", len(helpers), 6)
+    und.emit(ctx, rid, "blank-symbol construction", where_fn(fn))
+    decided = not und.count
+    ctx.floor(rid, "versions evaluated", sum(1 for j in res if j["blank_status"][0] in ("ret", "diverge")) + und.count, 40)
+    if not und.count:
+        ctx.floor(rid, "drawing helpers reached from create_matrix", len(helpers), 1)
+    return decided
 
 
 # ---------------------------------------------------------------------------------------------------------------------
@@ -324,11 +355,12 @@ def c04_r3(ctx, f, rid="C04.R3", only_outside=False):
     res = geometry(ctx, f, {"blank", "format"})
     runs = 0
     groups = _Groups()
+    und = _Und()
     for job in res:
         v = job["v"]
         name = "V%02d" % v
         if job["blank_status"][0] != "ret" or "format" not in job:
-            ctx.abstain(rid, "blank symbol not available for %s" % name, where_fn(fn))
+            und.add("blank symbol not available (%s)" % (job["blank_status"][1],), name)
             continue
         g = job["blank"]
         n = g["size"]
@@ -344,7 +376,7 @@ def c04_r3(ctx, f, rid="C04.R3", only_outside=False):
                     ctx.fail(rid, "default::create_matrix_format_info/%s/diverges" % inst, where_fn(fn), fn.path, inst,
                              "the format writer panics: %s" % r["status"][1])
                 else:
-                    ctx.abstain(rid, "format writer not foldable for %s: %s" % (inst, r["status"][1]), where_fn(fn))
+                    und.add(r["status"][1], inst)
                 continue
             runs += 1
             word = ref.format_word(l, ref.MASKS.index(mk))
@@ -370,7 +402,11 @@ def c04_r3(ctx, f, rid="C04.R3", only_outside=False):
                     groups.add(x[0].replace(" ", "_"), inst, x[1], x[2])
     groups.emit(ctx, rid, "default::create_matrix_format_info", where_fn(fn), fn.path,
                 "format information is not the BCH(15,5) word of (level, mask) at the ISO positions, or the writer touches another module")
-    ctx.floor(rid, "(version, level, mask) cells evaluated", runs, 40 * 2 if ctx.tier != "thorough" else 1280)
+    und.emit(ctx, rid, "format writer", where_fn(fn))
+    decided = not und.count
+    ctx.floor(rid, "(version, level, mask) cells evaluated", runs + und.count + sum(len(e["insts"]) for e in groups.g.values()),
+              40 * 2 if ctx.tier != "thorough" else 1280)
+    return decided
 
 
 # ---------------------------------------------------------------------------------------------------------------------
@@ -399,13 +435,14 @@ def c08_r4(ctx, f, tbl=None, rid="C08.R4"):
     runs = 0
     seen_callees = set()
     groups = _Groups()
+    und = _Und()
     for job in res:
         v = job["v"]
         if v not in versions:
             continue
         name = "V%02d" % v
         if job["blank_status"][0] != "ret" or "masks" not in job:
-            ctx.abstain(rid, "blank symbol not available for %s" % name, where_fn(fn))
+            und.add("blank symbol not available (%s)" % (job["blank_status"][1],), name)
             continue
         g = job["blank"]
         n = g["size"]
@@ -416,7 +453,7 @@ def c08_r4(ctx, f, tbl=None, rid="C08.R4"):
                     ctx.fail(rid, "datamasking::mask/%s/diverges" % inst, where_fn(fn), fn.path, inst,
                              "the sweep panics on the blank symbol: %s" % r["status"][1])
                 else:
-                    ctx.abstain(rid, "sweep not foldable for %s: %s" % (inst, r["status"][1]), where_fn(fn))
+                    und.add(r["status"][1], inst)
                 continue
             runs += 1
             seen_callees |= set(r["calls"])
@@ -453,7 +490,9 @@ def c08_r4(ctx, f, tbl=None, rid="C08.R4"):
     groups.emit(ctx, rid, "datamasking::mask", where_fn(fn), fn.path,
                 "the sweep for this mask does not toggle exactly the data modules satisfying its ISO Table 10 condition, or changes a "
                 "function module (first offending modules of the first configuration shown)")
-    ctx.floor(rid, "(version, mask) sweeps evaluated", runs, 8 * len(versions))
+    und.emit(ctx, rid, "mask sweep", where_fn(fn))
+    ctx.floor(rid, "(version, mask) sweeps evaluated", runs + und.count + sum(len(e["insts"]) for e in groups.g.values()), 8 * len(versions))
+    return not und.count
 
 
 def _direct_module_reads(f, paths):
@@ -498,6 +537,7 @@ def c01_r5(ctx, f, rid="C01.R5"):
     res = geometry(ctx, f, {"blank", "place"})
     versions = _versions(ctx, "place")
     groups = _Groups()
+    und = _Und()
     runs = 0
     for job in res:
         v = job["v"]
@@ -505,14 +545,14 @@ def c01_r5(ctx, f, rid="C01.R5"):
             continue
         name = "V%02d" % v
         if job["blank_status"][0] != "ret" or "place" not in job:
-            ctx.abstain(rid, "blank symbol not available for %s" % name, where_fn(fn))
+            und.add("blank symbol not available (%s)" % (job["blank_status"][1],), name)
             continue
         r = job["place"]
         if r["status"][0] != "ret":
             if r["status"][0] == "diverge":
                 groups.add("diverges", name, None, r["status"][1])
             else:
-                ctx.abstain(rid, "placement is not foldable for %s: %s" % (name, r["status"][1]), where_fn(fn))
+                und.add(r["status"][1], name)
             continue
         runs += 1
         g = job["blank"]
@@ -545,7 +585,9 @@ def c01_r5(ctx, f, rid="C01.R5"):
     groups.emit(ctx, rid, "placement::place_on_matrix_data", where_fn(fn), fn.path,
                 "codeword bits are not placed in the ISO zig-zag order / bit order, or a function module is written "
                 "(first offending modules of the first configuration shown; tags are (byte, bit, negated))")
-    ctx.floor(rid, "versions evaluated", runs, len(versions))
+    und.emit(ctx, rid, "placement", where_fn(fn))
+    ctx.floor(rid, "versions evaluated", runs + und.count + sum(len(e["insts"]) for e in groups.g.values()), len(versions))
+    return not und.count
 
 
 # ---------------------------------------------------------------------------------------------------------------------
@@ -599,6 +641,7 @@ def c02_r4(ctx, f, rid="C02.R4"):
     with mp.Pool(min(16, os.cpu_count() or 1)) as pool:
         res = pool.map(_structure_job, sorted(versions, reverse=True), chunksize=1)
     groups = _Groups()
+    und = _Und()
     runs = 0
     for job in sorted(res, key=lambda r: r["v"]):
         v = job["v"]
@@ -609,7 +652,7 @@ def c02_r4(ctx, f, rid="C02.R4"):
                 if r["status"][0] == "diverge":
                     groups.add("diverges", inst, None, r["status"][1])
                 else:
-                    ctx.abstain(rid, "structure() is not foldable for %s: %s" % (inst, r["status"][1]), where_fn(fn))
+                    und.add(r["status"][1], inst)
                 continue
             runs += 1
             s1, l1, s2, l2 = ref.layout(v, l)
@@ -653,7 +696,9 @@ def c02_r4(ctx, f, rid="C02.R4"):
     groups.emit(ctx, rid, "polynomials::structure", where_fn(fn), fn.path,
                 "the final codeword sequence is not the ISO interleave of the data blocks followed by the interleave of each block's "
                 "own EC codewords (first differing position of the first configuration shown)")
-    ctx.floor(rid, "(version, level) cells evaluated", runs, 160)
+    und.emit(ctx, rid, "structure()", where_fn(fn))
+    ctx.floor(rid, "(version, level) cells evaluated", runs + und.count + sum(len(e["insts"]) for e in groups.g.values()), 160)
+    return not und.count
 
 
 def _sym(x, ec):
@@ -801,6 +846,7 @@ def c16_r3(ctx, f, rid="C16.R3"):
     if not undecided:
         ctx.floor(rid, "sizes evaluated", runs + sum(len(e["insts"]) for e in groups.g.values() if False), len(versions) - sum(
             len(e["insts"]) for k, e in groups.g.items() if k == "panics"))
+    return not undecided
 
 
 def _show_tok(t):
@@ -810,3 +856,130 @@ def _show_tok(t):
     if not conds:
         return "U+%04X" % table[0][1][0] if table[0][1] and isinstance(table[0][1][0], int) else str(table[0][1])
     return "glyph of modules %s: %s" % (list(conds), {k: ["U+%04X" % c if isinstance(c, int) else c for c in v] for k, v in table})
+
+
+# ---------------------------------------------------------------------------------------------------------------------
+# C05.R3: the capacity gate of QRCode::new as an outcome table
+# ---------------------------------------------------------------------------------------------------------------------
+
+MODE = "encode::Mode"
+OPT = "std::option::Option"
+
+
+def _opt(v):
+    return ("adt", OPT, 0, "None", ()) if v is None else ("adt", OPT, 1, "Some", (v,))
+
+
+def _gate_lengths(mode, level):
+    """lengths around every capacity threshold of the reference (and 0, and far beyond version 40)"""
+    out = {0, 1}
+    for v in range(1, 41):
+        c = ref.capacity(v, level, mode)
+        out |= {c, c + 1}
+    out |= {ref.capacity(40, level, mode) + 1000, 1 << 40}
+    return sorted(x for x in out if x >= 0)
+
+
+def _gate_job(arg):
+    mode, level = arg
+    f = _G["facts"]
+    out = []
+    lens = _gate_lengths(mode, level)
+
+    def cm_summary(pe, st, args, t):
+        vals = {}
+        for a, ty in zip(args, ("&[u8]", ECL, MODE, VERSION, "mask")):
+            vals[ty] = a
+        return ("qrtoken", to_py(vals[VERSION]), to_py(vals[ECL]), to_py(vals[MODE]),
+                vals["&[u8]"] if vals["&[u8]"] == TOP else peval._deref(pe, st, vals["&[u8]"]))
+
+    variants = [("forced-mode", _opt(mk_enum(MODE, mode)), None), ("auto-mode", _opt(None), mode)]
+    level_variants = [("forced-level", _opt(mk_enum(ECL, level)))]
+    if level == "Q":
+        level_variants.append(("default-level", _opt(None)))
+    for n in lens:
+        need = None
+        for v in range(1, 41):
+            if n <= ref.capacity(v, level, mode):
+                need = v
+                break
+        for forced in [None] + list(range(1, 41)):
+            if forced not in (None, 1, 40) and need is not None and abs(forced - need) > 1 and forced % 13:
+                continue  # forced versions: none, the extremes, the neighbours of the needed one, and a few in between
+            for mname, mval, auto in variants:
+                for lname, lval in level_variants:
+                    pe = peval.PEval(f, max_steps=200000)
+                    pe.summaries["placement::create_matrix"] = cm_summary
+                    if auto is not None:
+                        pe.summaries["encode::best_encoding"] = lambda pe_, st, a, t, m=auto: mk_enum(MODE, m)
+                    else:
+                        # a forced mode must win over whatever detection would say: let detection say something else
+                        other = "Numeric" if mode != "Numeric" else "Byte"
+                        pe.summaries["encode::best_encoding"] = lambda pe_, st, a, t, m=other: mk_enum(MODE, m)
+                    args = [("ref", ("const", ("symvec", n))), lval,
+                            _opt(None if forced is None else mk_enum(VERSION, "V%02d" % forced)), mval, _opt(None)]
+                    r = pe.call("qr::QRCode::new", args)
+                    if need is None:
+                        exp = ("Err", "EncodedData")
+                    elif forced is None:
+                        exp = ("Ok", "V%02d" % need)
+                    elif forced >= need:
+                        exp = ("Ok", "V%02d" % forced)
+                    else:
+                        exp = ("Err", "SpecifiedVersion")
+                    got = None
+                    if r.kind == "ret" and r.value != TOP and r.value[0] == "adt":
+                        if r.value[3] == "Ok" and r.value[4] and r.value[4][0] != TOP and r.value[4][0][0] == "qrtoken":
+                            tok = r.value[4][0]
+                            got = ("Ok", tok[1]) if (tok[2], tok[3]) == (level, mode) and tok[4] == ("symvec", n) else ("Ok-other", tok[1:4])
+                        elif r.value[3] == "Err":
+                            got = ("Err", to_py(r.value[4][0]))
+                    elif r.kind == "diverge":
+                        got = ("panic", r.why)
+                    else:
+                        got = ("undecided", "%s: %s" % (r.kind, r.why))
+                    if got != exp:
+                        out.append(((mode, level, n, forced, mname, lname), exp, got))
+                    else:
+                        out.append(None)
+    return (mode, level, out)
+
+
+def c05_r3(ctx, f, rid="C05.R3"):
+    ctx.rule(rid, "QRCode::new outcome table by partial evaluation: smallest sufficient version / forced version if large enough / "
+                  "'specified version too small' / 'data too big', around every capacity threshold, forced and automatic mode, "
+                  "given and default level; the payload is symbolic")
+    fn = anchor_fn(ctx, rid, f, "qr::QRCode::new")
+    if not fn:
+        return None
+    if f.fn("placement::create_matrix") is None or f.fn("version::Version::get") is None:
+        ctx.anchor_missing(rid, "placement::create_matrix / version::Version::get")
+        return None
+    _G["facts"] = f
+    jobs = [(m, l) for m in ref.MODES for l in ref.LEVELS]
+    mp = multiprocessing.get_context("fork")
+    with mp.Pool(min(12, os.cpu_count() or 1)) as pool:
+        res = pool.map(_gate_job, jobs, chunksize=1)
+    groups = _Groups()
+    undecided = {}
+    n_ok = 0
+    for mode, level, out in res:
+        for item in out:
+            if item is None:
+                n_ok += 1
+                continue
+            (m, l, n, forced, mname, lname), exp, got = item
+            inst = "%s/%s len=%d forced=%s %s %s" % (m, l, n, "none" if forced is None else "V%02d" % forced, mname, lname)
+            if got[0] == "undecided":
+                undecided.setdefault(got[1][:160], []).append(inst)
+            else:
+                groups.add("%s->%s" % ("-".join(str(x) for x in exp) if exp[0] == "Err" else "Ok", got[0] if got[0] != "Err" else "Err-" + str(got[1])),
+                           inst, list(exp), list(got))
+    if n_ok:
+        ctx.ok(rid, "%d (mode, level, length, forced version, mode/level given or defaulted) cells give the documented outcome" % n_ok, n=n_ok)
+    groups.emit(ctx, rid, "qr::QRCode::new", where_fn(fn), fn.path,
+                "building does not choose the smallest sufficient version / honour a large-enough forced version / return the documented "
+                "error (first configuration shown)")
+    for why, insts in sorted(undecided.items()):
+        ctx.abstain(rid, "QRCode::new not foldable (%s), e.g. %s" % (why, insts[0]), where_fn(fn))
+    return not undecided
